@@ -172,6 +172,10 @@ func (e *Exec) zero(t types.Type) Value {
 		if u.Kind() == types.UnsafePointer {
 			return &Ptr{}
 		}
+		if u.Kind() == types.Invalid {
+			// go/ssa leaves operands it never reads typed "invalid type" (e.g. the unused index of a range Next)
+			return Poison{"value of invalid type"}
+		}
 		w := e.basicWidth(u)
 		if w < 0 {
 			panic(unsupported{"zero of basic type " + u.String()})
